@@ -56,6 +56,10 @@ m = {
   {"name": "spec", "path": "spec/", "serves_properties": ALL, "kind_free_text": "TLA+ specifications, MC / generation configs and trace specifications, run with TLC"},
   {"name": "wsim", "path": "harness/src/sim.rs", "serves_properties": ["C01","C02","C04","C07","C08","C13","C15","C16"], "kind_free_text": "real tftpd::Worker over a simulated Socket and virtual clock; script replay and trace recording"},
   {"name": "pure", "path": "harness/src/bin/pure.rs", "serves_properties": ["C10","C11","C17","C18"], "kind_free_text": "real Packet / Window / Config / ClientConfig driven by TLC-generated vectors"},
+  {"name": "net", "path": "vlib/net.py", "serves_properties": ["C03","C05","C06","C09","C12","C13"], "kind_free_text": "real tftpd child process in a sandbox with decoys; one exchange per endpoint with sentinel-confirmed silence; sandbox delta"},
+  {"name": "xfer", "path": "vlib/xfer.py", "serves_properties": ["C01","C02","C04","C05","C07","C09","C12","C13"], "kind_free_text": "model clients against the real process recording transfers in the worker-level event vocabulary (judged by Trace_Transfer)"},
+  {"name": "interop", "path": "vlib/interop.py", "serves_properties": ["C14","C16"], "kind_free_text": "real tftpc against real tftpd through a recording, order-preserving proxy; tftpc against a scripted model server"},
+  {"name": "extras", "path": "vlib/extras.py", "serves_properties": ["C02","C08","C15"], "kind_free_text": "unbounded side arguments recorded in evidence: Apalache inductive invariants (SenderInd, ReceiverInd), TLAPS wrap lemma"},
   {"name": "check", "path": "check", "serves_properties": ALL, "kind_free_text": "orchestration: TLC generation (cached by spec hash), replay, TLC judging, attribution, evidence, known findings"},
  ],
  "checks": sorted(CHECKS, key=lambda c: c["property_id"]),
